@@ -419,6 +419,24 @@ func c13Replacements() ([][]byte, []string) {
 		}
 		in, err = buildInit(many)
 		add("init 12 tracks", in, err)
+		// counts around the limit of tracks per stream (10), the video track - the one the segments carry as id 1 - first,
+		// in the middle or last
+		for _, n := range []int{9, 10, 11, 12} {
+			for _, vpos := range []int{0, n / 2, n - 1} {
+				var l []sTrack
+				for i := 0; i < n; i++ {
+					if i == vpos {
+						l = append(l, sTrack{Kind: "h264", ID: 1, TimeScale: 90000})
+					} else if i < vpos {
+						l = append(l, sTrack{Kind: "aac", ID: i + 2, TimeScale: 44100})
+					} else {
+						l = append(l, sTrack{Kind: "aac", ID: i + 1, TimeScale: 44100})
+					}
+				}
+				in, err = buildInit(l)
+				add(fmt.Sprintf("init %d tracks, video at position %d", n, vpos), in, err)
+			}
+		}
 		// fragments
 		vu := func(track int, dts int64, n int) []sUnit {
 			var us []sUnit
